@@ -521,7 +521,7 @@ def own(ctx):
     if not sess:
         raise AnchorLost("Session struct")
     for fld in sess["variants"][0]["fields"]:
-        ok = fld["ty"].startswith("std::collections::VecDeque<(") and not re.search(r"\b(Arc|Rc|Weak|&)", fld["ty"])
+        ok = not re.search(r"\b(Arc|Rc|Weak|ManuallyDrop|Box<dyn)\b|&", fld["ty"])
         out.append(Inst("OWN", "session-field:%s" % fld["name"], ok, "src/client/context.rs", fld["ty"], "plain owned collection"))
     cx = ctx.facts.adt("client::context::Context")
     for fld in cx["variants"][0]["fields"]:
